@@ -506,7 +506,7 @@ func Run(r *report.Run) {
 	if r.Tier == "thorough" {
 		n = 5
 	}
-	r.Rule = fmt.Sprintf("version universe 1..%d; every directory (each version absent / migration file / checkpoint file; the checkpoints of even versions carry a delimiter directive, so that their checkpoint directive is the second header line) x every revision table (any subset of the universe fully applied, last one optionally partial 1/2, recorded with or without an error text) x exec-order {linear, linear-skip, non-linear} x {no option, allow-dirty, baseline=v for every v} x {clean, dirty}; real Executor.Pending on MemDir compared with the set-based reference model refPending; then ExecuteN(n) for every n and ExecuteTo(v) for every version v on the real Executor (ExecuteTo also: the executor afterwards decides like a fresh one); plus a BFS (depth 4, thorough 5) over CLI histories on a real SQLite file with the alphabet {add file, add file whose 2nd statement fails, add checkpoint file, add a file holding comments only, add out-of-order file, apply, apply 1, apply --exec-order non-linear / linear-skip (by flag and through the project file's migration block), set 1..4 (incl. a version lying in a gap of the recorded history), fix the failing file, fix it and append a statement, remove the newest file}: in the reached state `migrate status` must report the pending/out-of-order files of the reference model fed with the actual revision rows, `migrate apply [n]` must execute exactly the statements the decision implies (journal table written by the statements) and leave a complete revision for every file it covered, and after `migrate set v` nothing up to v may be pending; plus one `migrate apply --env` run over two (three) env blocks of the same name, every combination of baseline and exec_order per block: each database must get the history a run of its own gives it; non-trivial = configuration with a non-empty directory and a decision other than plain 'all files'; distinct by construction", n)
+	r.Rule = fmt.Sprintf("version universe 1..%d; every directory (each version absent / migration file / checkpoint file; the checkpoints of even versions carry a delimiter directive, so that their checkpoint directive is the second header line) x every revision table (any subset of the universe fully applied, last one optionally partial 1/2, recorded with or without an error text) x exec-order {linear, linear-skip, non-linear} x {no option, allow-dirty, baseline=v for every v} x {clean, dirty}; real Executor.Pending on MemDir compared with the set-based reference model refPending; then ExecuteN(n) for every n and ExecuteTo(v) for every version v on the real Executor (ExecuteTo also: the executor afterwards decides like a fresh one); plus a BFS (depth 4, thorough 5) over CLI histories on a real SQLite file with the alphabet {add file, add file whose 2nd statement fails, add checkpoint file, add a file holding comments only, add out-of-order file, apply, apply 1, apply --exec-order non-linear / linear-skip (by flag and through the project file's migration block), set 1..4 (incl. a version lying in a gap of the recorded history), fix the failing file, fix it and append a statement, remove the newest file}: in the reached state `migrate status` must report the pending/out-of-order files of the reference model fed with the actual revision rows, `migrate apply [n]` must execute exactly the statements the decision implies (journal table written by the statements) and leave a complete revision for every file it covered, and after `migrate set v` nothing up to v may be pending; plus one `migrate apply --env` run over two (three) env blocks of the same name, every combination of baseline and exec_order per block: each database must get the history a run of its own gives it; plus versions that begin with a sign, a dot or a blank (they sort before every digit and letter): applied by `migrate apply 1`, they are history for `migrate status` and the next `migrate apply`; non-trivial = configuration with a non-empty directory and a decision other than plain 'all files'; distinct by construction", n)
 	r.Assumptions = []string{
 		"versions are fixed-width digit strings so name order and version order coincide",
 		"every file has two statements; a partial revision has Applied=1 of 2 with the executor's own partial hash",
@@ -546,6 +546,7 @@ func Run(r *report.Run) {
 	}
 	nt := RunTenants(r)
 	r.Set("tenant_cases", nt)
+	r.Set("odd_version_cases", RunOdd(r))
 	cs, ct := RunCLI(r, cliDepth)
 	r.Set("cli_bfs_depth", cliDepth)
 	r.Set("cli_states", cs)
@@ -581,6 +582,20 @@ func Replay(r *report.Run, raw json.RawMessage) {
 		r.Case("a", true)
 		r.Case("b", true)
 		ReplayCLI(r, cv.Case.History)
+		return
+	}
+	var ov struct {
+		Case struct {
+			Odd *OddCase `json:"odd"`
+		}
+	}
+	if json.Unmarshal(raw, &ov) == nil && ov.Case.Odd != nil {
+		defer clih.Cleanup()
+		r.Case("a", true)
+		r.Case("b", true)
+		if p := evalOdd(*ov.Case.Odd); len(p) > 0 {
+			r.Violate("", strings.Join(p, " | "), map[string]any{"odd": ov.Case.Odd})
+		}
 		return
 	}
 	var tv struct {
